@@ -4,37 +4,145 @@ import (
 	"fmt"
 	"go/ast"
 	"go/constant"
+	"go/parser"
+	"os"
+	"path/filepath"
 	"strings"
 )
 
-// calledUnderGo reports how fn (a name suffix such as "multiplexToUpstream" or "AcceptConnection") is
-// invoked inside the given function: "go" when every call site is inside a `go` statement (directly or
-// in a func literal started with go), "inline" when some call runs on the caller's goroutine, "absent".
+// c02PkgDecls returns the function declarations (non-test files) of the package directory that declares fd, so that a
+// call of an unexported helper or method of the same package can be followed into its body.
+var c02PkgCache = map[string][]*ast.FuncDecl{}
+
+func c02PkgDecls(fd *ast.FuncDecl) []*ast.FuncDecl {
+	dir := filepath.Dir(fset.Position(fd.Pos()).Filename)
+	if ds, ok := c02PkgCache[dir]; ok {
+		return ds
+	}
+	var ds []*ast.FuncDecl
+	ents, _ := os.ReadDir(dir)
+	for _, e := range ents {
+		if e.IsDir() || !strings.HasSuffix(e.Name(), ".go") || strings.HasSuffix(e.Name(), "_test.go") {
+			continue
+		}
+		f, err := parser.ParseFile(fset, filepath.Join(dir, e.Name()), nil, 0)
+		if err != nil {
+			continue
+		}
+		for _, d := range f.Decls {
+			if x, ok := d.(*ast.FuncDecl); ok && x.Body != nil {
+				ds = append(ds, x)
+			}
+		}
+	}
+	c02PkgCache[dir] = ds
+	return ds
+}
+
+// c02Recv gives the receiver's variable name and type name ("" "" for a plain function)
+func c02Recv(fd *ast.FuncDecl) (name, typ string) {
+	if fd.Recv == nil || len(fd.Recv.List) == 0 {
+		return "", ""
+	}
+	t := fd.Recv.List[0].Type
+	if st, ok := t.(*ast.StarExpr); ok {
+		t = st.X
+	}
+	if len(fd.Recv.List[0].Names) > 0 {
+		name = fd.Recv.List[0].Names[0].Name
+	}
+	return name, exprString(t)
+}
+
+// c02Callee resolves the callee of a call made inside cur to a declaration of the same package: `f(…)` to the
+// package-level function f, `r.m(…)` (r = cur's receiver variable) to the method m of cur's receiver type.  Anything
+// else (other packages, interface values, fields) is not followed.
+func c02Callee(cur *ast.FuncDecl, fun ast.Expr) *ast.FuncDecl {
+	wantRecv, wantName := "", ""
+	switch x := fun.(type) {
+	case *ast.Ident:
+		wantName = x.Name
+	case *ast.SelectorExpr:
+		id, ok := x.X.(*ast.Ident)
+		rn, rt := c02Recv(cur)
+		if !ok || rn == "" || id.Name != rn {
+			return nil
+		}
+		wantRecv, wantName = rt, x.Sel.Name
+	default:
+		return nil
+	}
+	for _, d := range c02PkgDecls(cur) {
+		if d.Name.Name != wantName {
+			continue
+		}
+		if _, rt := c02Recv(d); rt == wantRecv {
+			return d
+		}
+	}
+	return nil
+}
+
+// calledUnderGo reports on which goroutine fn (a name suffix such as "multiplexToUpstream" or "AcceptConnection")
+// runs when the given function is executed: "go" when every call of fn reachable from the function's body runs on a
+// goroutine started with a `go` statement, "inline" when some call runs on the function's own goroutine, "absent" when
+// no call is reachable.  Calls of helpers and methods of the same package are followed into their bodies (up to four
+// levels), so the answer is the same whether the call sits directly in the function, in a func literal handed to `go`,
+// or in a helper that is itself called or started with `go`.  A func literal that is not the operand of `go` (deferred,
+// called in place) counts as running on the current goroutine; the arguments of a `go` statement are evaluated on the
+// current goroutine.
 func calledUnderGo(fd *ast.FuncDecl, fn string) string {
 	if fd == nil || fd.Body == nil {
 		return "absent"
 	}
 	found, inline := false, false
-	var walk func(n ast.Node, underGo bool)
-	walk = func(n ast.Node, underGo bool) {
+	type key struct {
+		d  *ast.FuncDecl
+		ug bool
+	}
+	seen := map[key]bool{}
+	isTarget := func(fun ast.Expr) bool {
+		name := src(fun)
+		return name == fn || strings.HasSuffix(name, "."+fn)
+	}
+	var walk func(cur *ast.FuncDecl, n ast.Node, underGo bool, depth int)
+	// call handles one callee expression evaluated as a call on a goroutine described by underGo
+	call := func(cur *ast.FuncDecl, fun ast.Expr, underGo bool, depth int) {
+		if isTarget(fun) {
+			found = true
+			if !underGo {
+				inline = true
+			}
+			return
+		}
+		if d := c02Callee(cur, fun); d != nil && depth < 4 && !seen[key{d, underGo}] {
+			seen[key{d, underGo}] = true
+			walk(d, d.Body, underGo, depth+1)
+		}
+	}
+	walk = func(cur *ast.FuncDecl, n ast.Node, underGo bool, depth int) {
 		ast.Inspect(n, func(m ast.Node) bool {
 			switch x := m.(type) {
 			case *ast.GoStmt:
-				walk(x.Call, true)
+				for _, a := range x.Call.Args {
+					walk(cur, a, underGo, depth)
+				}
+				if lit, ok := x.Call.Fun.(*ast.FuncLit); ok {
+					walk(cur, lit.Body, true, depth)
+				} else {
+					if sel, ok := x.Call.Fun.(*ast.SelectorExpr); ok {
+						walk(cur, sel.X, underGo, depth)
+					}
+					call(cur, x.Call.Fun, true, depth)
+				}
 				return false
 			case *ast.CallExpr:
-				name := src(x.Fun)
-				if name == fn || strings.HasSuffix(name, "."+fn) {
-					found = true
-					if !underGo {
-						inline = true
-					}
-				}
+				call(cur, x.Fun, underGo, depth)
 			}
 			return true
 		})
 	}
-	walk(fd.Body, false)
+	walk(fd, fd.Body, false, 0)
 	if !found {
 		return "absent"
 	}
